@@ -142,6 +142,17 @@ def structures():
                  R("b1", "derivation", None, ("e2", "e3", "a2", None, None)),
                  ("bundle", "b2"), E("b2", "e4"), AC("b2", "a4"), R("b2", "usage", "u", ("a4", "e4", "t"), (("k", 1),)),
                  R("b2", "start", None, ("a4", "e4", "a5", None)))))
+    # optional arguments with gaps (no activity, but generation and / or usage)
+    out.append(("derivation-gaps", (E("D", "e1"), E("D", "e2"), R("D", "derivation", None, ("e2", "e1", None, "g2", "u2")),
+                                    R("D", "derivation", None, ("e2", "e1", None, None, "u9")),
+                                    R("D", "derivation", None, ("e2", "e1", None, "g9", None)),
+                                    R("D", "start", None, ("a1", None, "a7", None)))))
+    # the same attribute name on different records with values that compare equal but are of different kinds
+    out.append(("equal-values-of-different-kinds",
+                (E("D", "e1", (("k", 1), ("z", 0), ("w", 1.0))), E("D", "e2", (("k", True), ("z", False), ("w", 1))),
+                 E("D", "e3", (("k", 1.0), ("z", 0.0), ("w", True))), AC("D", "a1"),
+                 R("D", "usage", None, ("a1", "e1", None), (("k", True),)), R("D", "usage", None, ("a1", "e2", None), (("k", 1),)),
+                 ("bundle", "b1"), E("b1", "e1", (("k", True), ("z", 0.0))))))
     out.append(("time-only-relations",
                 (E("D", "e1"), AC("D", "a1"), R("D", "generation", None, ("e1", "a1", "t")), R("D", "usage", None, ("a1", "e1", "t")),
                  R("D", "invalidation", None, ("e1", "a1", "t")), R("D", "start", None, ("a1", "e1", None, "t")),
